@@ -636,6 +636,7 @@ pub fn seq_bfs<M: SeqModel>(m: &M, max_depth: usize, max_states: u64, rep: &mut 
     let mut seen: HashSet<u64> = HashSet::new();
     let s0 = m.init();
     seen.insert(hash_of(&m.key(&s0)));
+    let states_at_start = rep.states;
     rep.states += 1;
     let mut frontier: Vec<Vec<M::Ev>> = vec![vec![]];
     let mut depth_completed = 0;
@@ -684,7 +685,7 @@ pub fn seq_bfs<M: SeqModel>(m: &M, max_depth: usize, max_states: u64, rep: &mut 
         }
         depth_completed = d + 1;
         frontier = next;
-        if rep.states > max_states {
+        if rep.states - states_at_start > max_states {
             capped = true;
             break;
         }
